@@ -28,6 +28,7 @@ RULE = (
     "statement binds in the client's namespace is the same object as when the statement runs after the "
     "whole package was imported. Non-trivial iff the "
     "program's first module is not chartparse.chart; distinct = distinct statement sequence."
+    ' The dump also records the repr of public type aliases (argument order included).'
 )
 ASSUMPTIONS = [
     "client programs are reduced to import orders (first imports and ordered pairs exhaustively, longer "
